@@ -268,32 +268,41 @@ def object_param_krylov_probe(ctx):
             return [t.detach() for t in list(g1) + list(g2)]
         ar, br = a0.clone().requires_grad_(), b0.clone().requires_grad_()
         want = g12(lambda: reference(ar, br), ar, br)
-        for kind in ("EditableModule", "nn.Module"):
+        # the object also holds a tensor that does NOT require grad (a frozen parameter / a listed constant) before, between
+        # or after the differentiable ones, or none (seeded C04/8: substitutions skipped as soon as ONE slot is unchanged)
+        for kind, frozen_at in (("EditableModule", None), ("nn.Module", None), ("EditableModule", 0), ("EditableModule", 1),
+                                ("nn.Module", 1), ("nn.Module", 2)):
             for bck in (dict(method="bicgstab", rtol=1e-12, atol=1e-14), dict(method="cg", rtol=1e-12, atol=1e-14)):
                 a, b = a0.clone().requires_grad_(), b0.clone().requires_grad_()
+                names = ["a", "b"]
+                if frozen_at is not None:
+                    names.insert(frozen_at, "one")
                 if kind == "EditableModule":
                     class Mod(xt.EditableModule):
                         def __init__(self):
-                            self.a, self.b = a, b
+                            self.a, self.b, self.one = a, b, torch.ones(n, dtype=DT)
 
                         def f(self, y):
-                            return res(y, self.a, self.b)
+                            return res(y, self.a * (self.one if frozen_at is not None else 1.0), self.b)
 
                         def getparamnames(self, methodname, prefix=""):
-                            return [prefix + "a", prefix + "b"]
+                            return [prefix + nm_ for nm_ in names]
                     mod = Mod()
                     fobj, leaves = mod.f, (a, b)
                 else:
                     class Net(torch.nn.Module):
                         def __init__(self):
                             super().__init__()
-                            self.a, self.b = torch.nn.Parameter(a0.clone()), torch.nn.Parameter(b0.clone())
+                            for nm_ in names:           # registration order = parameter order
+                                setattr(self, nm_, torch.nn.Parameter({"a": a0, "b": b0, "one": torch.ones(n, dtype=DT)}[nm_].clone(),
+                                                                      requires_grad=nm_ != "one"))
 
                         def forward(self, y):
-                            return res(y, self.a, self.b)
+                            return res(y, self.a * (self.one if frozen_at is not None else 1.0), self.b)
                     mod = Net()
                     fobj, leaves = mod.forward, (mod.a, mod.b)
-                info = {"function_kind": kind, "unknowns": n, "bck_options": {k: v for k, v in bck.items()}}
+                info = {"function_kind": kind, "unknowns": n, "bck_options": {k: v for k, v in bck.items()},
+                        "object_tensors": names, "non_differentiable": "one" if frozen_at is not None else None}
                 try:
                     with warnings.catch_warnings():
                         warnings.simplefilter("ignore")
@@ -302,7 +311,7 @@ def object_param_krylov_probe(ctx):
                 except Exception as e:
                     ctx.fail("oracle", "rootgrad:object-params:exception", info, repr(e)[:300], "first and second order gradients")
                     continue
-                ctx.count(("object-param-krylov", kind, n, bck["method"]), nontrivial=True)
+                ctx.count(("object-param-krylov", kind, n, bck["method"], frozen_at), nontrivial=True)
                 for nm, x_, y_ in zip(("da", "db", "d2a", "d2b"), got, want):
                     if not torch.allclose(x_, y_, rtol=1e-5, atol=1e-7):
                         ctx.fail("oracle", "rootgrad:object-params:%s:%s" % (bck["method"], nm), info, x_, y_)
